@@ -7,8 +7,33 @@ every qualification of the table, checks the table invariant and the
 unambiguity of the choice, and exports the look-ups; each is executed on
 RateDef.Value and end to end through an invoice (issue date / value date) and
 an order (value date); RatesTrace.tla judges.  Random dates are added."""
-import json
+import json, os, re
 from . import core
+
+
+def model(ctx, tables, cases):
+    """MCRates is parameterised by the tables exported from the code.  Its invariants TablesOrdered and Unambiguous
+    speak about those tables (the property's last sentence), so their violation is a finding about the code's
+    data, not about the specification; any other failure of the model run is infrastructure."""
+    try:
+        ctx.model_check("MCRates", "MCRates.cfg", workers=8, env={"TABLES": tables, "OUT": cases})
+        return True
+    except core.Infra as e:
+        msg = str(e)
+        m = re.search(r"Invariant (TablesOrdered|Unambiguous) is violated", msg)
+        if not m:
+            raise
+        ri = re.search(r"/\\ ri = (\d+)", msg)
+        t = json.load(open(tables))["rates"]
+        name = "?"
+        if ri and 0 < int(ri.group(1)) <= len(t):
+            r = t[int(ri.group(1)) - 1]
+            name = "%s/%s/%s" % (r.get("cc"), r.get("cat"), r.get("key"))
+        ctx.disagreements.append({"cls": "rate-table-%s:%s" % ("not-strictly-descending" if m.group(1) == "TablesOrdered" else "ambiguous", name),
+                                  "what": "the in-code rate table %s violates %s: its values are not in strictly descending order of start date "
+                                          "(per qualification), so the choice of a value is not the one the property describes" % (name, m.group(1)),
+                                  "family": "rates-table", "replay": {"table": name, "invariant": m.group(1)}})
+        return os.path.exists(cases) and os.path.getsize(cases) > 0
 
 
 def validate(ctx, trace, tables, shards):
@@ -33,7 +58,8 @@ def run(ctx):
     tables = ctx.path("tables.json")
     ctx.run([vd, "rates-export", "-out", tables])
     cases = ctx.path("cases.ndjson")
-    ctx.model_check("MCRates", "MCRates.cfg", workers=8, env={"TABLES": tables, "OUT": cases})
+    if not model(ctx, tables, cases):
+        open(cases, "w").close()
     n = 1500 if ctx.quick() else 60000
     ctx.run([vd, "rates-run", "-seed", str(ctx.seed), "-n", str(n), "-in", cases, "-out", ctx.path("trace.ndjson")])
     tot = validate(ctx, ctx.path("trace.ndjson"), tables, 16)
@@ -61,6 +87,15 @@ def replay(ctx, path):
     rp = json.load(open(path))
     tables = ctx.path("tables.json")
     ctx.run([vd, "rates-export", "-out", tables])
+    if rp["cases"] and rp["cases"][0] and "invariant" in rp["cases"][0]:
+        model(ctx, tables, ctx.path("model-cases.ndjson"))
+        for d in ctx.disagreements[:5]:
+            print("REPRODUCED %s" % d["what"])
+        if ctx.disagreements:
+            print("VIOLATION property=%s replay=%s" % (ctx.pid, path))
+            return 1
+        print("not reproduced")
+        return 0
     open(ctx.path("cases.ndjson"), "w").write("\n".join(json.dumps(c) for c in rp["cases"]) + "\n")
     ctx.run([vd, "rates-run", "-seed", "1", "-n", "0", "-in", ctx.path("cases.ndjson"), "-out", ctx.path("trace.ndjson")])
     validate(ctx, ctx.path("trace.ndjson"), tables, 1)
